@@ -5,7 +5,7 @@
    FAILS the property on the unchanged code and is proved to fail: C12_names_explicit_refuted
    (recorded finding names-explicit-secret-silence). *)
 From IRC Require Import Str Wild Glob Parse Reply State Handlers Step.
-From IRCP Require Import InvDefs SecretP ViewsP InvisibleP.
+From IRCP Require Import InvDefs SecretP ViewsP InvisibleP InvisibleKeep.
 From Coq Require Import Lia.
 From stdpp Require Import gmap.
 
@@ -130,7 +130,18 @@ Proof. exact (whois_hides_invisible cfg i). Qed.
 
 End C12.
 
+(* WHO IS INVISIBLE stays what the user set: a MODE <own nick> command whose mode strings do not contain the letter 'i' - dropping
+   or being refused operator status (-o, -O, +o, +O), +w / -w, +r / -r, unknown letters, any number of groups and sign switches -
+   leaves the user's invisible flag as it is (together with C11_modes_follow_commands: nothing but the user's own MODE / OPER line
+   touches its modes at all, and OPER sets operator flags only) *)
+Theorem C12_mode_without_i_keeps_invisible_partial : forall cfg i s c nick modes r u, users s !! nick = Some u ->
+  Forall (fun g : str * list str => 105%N ∉ g.1) modes ->
+  process_mode_user cfg i s c nick modes = Ok r ->
+  exists u', users (h_sh r) !! nick = Some u' /\ um_invisible (u_modes u') = um_invisible (u_modes u).
+Proof. exact mode_user_keeps_invisible. Qed.
+
 Print Assumptions C12_list_explicit_partial.
+Print Assumptions C12_mode_without_i_keeps_invisible_partial.
 Print Assumptions C12_list_all_partial.
 Print Assumptions C12_names_no_members_partial.
 Print Assumptions C12_names_explicit_refuted.
